@@ -195,3 +195,125 @@ def griddify_alignment(S, tmpl, fixed_idx):
           params=[dict(tmpl=t, fixed_idx=f) for t in TEMPLATES if t not in QUICK for f in (-1, 0, 1)])
 def griddify_alignment_more(S, tmpl, fixed_idx):
     griddify_alignment(S, tmpl, fixed_idx)
+
+
+# ---- bounded leg: larger concrete allocations (the symbolic runs hold one arbitrary cell / lattice templates of <= 3 cells) --------------
+
+@contract(P, kind="enum", functions=[A + "must_be_refined", A + "refine", A + "uniform_refinement_depth", A + "griddify", A + "_split_allocation"],
+          scope="bounded: concrete allocations of up to 20 cells on irregular lattices (empty maps, zero ratios, fixed cells, recorded depths), "
+                "thresholds on and off the ratios, levels 1-3, the refine-while-needed loop", params=[dict(chunk=i) for i in range(8)])
+def larger_allocations(chunk, replay=None):
+    import os
+    import random
+    tier = os.environ.get("VERIF_TIER", "quick")
+    rng = random.Random(1200 + chunk + 100 * int(os.environ.get("VERIF_SEED", "0") or 0))
+    n_cases = 20 if tier != "thorough" else 500
+    failures, evals, samples = [], 0, []
+
+    def cells_of(a):
+        return sorted((round(x.rect.center.x, 9), round(x.rect.center.y, 9), round(x.rect.shape.w, 9), round(x.rect.shape.h, 9), x.depth,
+                       tuple(sorted((k, round(v, 12)) for k, v in x.alloc.items())), x.rect.fixed) for x in a.allocations)
+
+    for it in range(n_cases):
+        if replay:
+            spec, fixed_idx, t, lv = replay["spec"], replay["fixed_idx"], replay["t"], replay["levels"]
+        else:
+            # an irregular lattice: rows of different heights, each row cut at its own x positions
+            spec, y = [], 0.0
+            for _ in range(rng.randint(1, 4)):
+                h = rng.choice([1.0, 2.0, 0.5, 3.0])
+                xs = sorted({0.0, 12.0, *[rng.choice([2.0, 3.0, 4.5, 6.0, 7.25, 9.0, 10.5]) for _ in range(rng.randint(0, 4))]})
+                for x0, x1 in zip(xs, xs[1:]):
+                    al = {}
+                    for m in ("M0", "M1", "M2"):
+                        if rng.random() < 0.55:
+                            al[m] = rng.choice([0.0, 0.1, 0.25, 0.5, 0.5, 0.75, 1.0])
+                    spec.append([[(x0 + x1) / 2, y + h / 2, x1 - x0, h], al, rng.choice([0, 0, 0, 1, 3])])
+                y += h
+            fixed_idx = sorted(rng.sample(range(len(spec)), rng.choice([0, 0, 1, 2]) if len(spec) > 2 else 0))
+            t = rng.choice([0.0, 0.1, 0.25, 0.3, 0.5, 0.6, 0.75, 0.9, 1.0])
+            lv = rng.randint(1, 3)
+        Rectangle.undefine_epsilon()
+        try:
+            a = Allocation([[list(r), dict(al), d] if d else [list(r), dict(al)] for r, al, d in spec])
+        except AssertionError:
+            continue
+        for i in fixed_idx:
+            a.allocations[i].rect.fixed = True
+        info = dict(spec=spec, fixed_idx=fixed_idx, t=t, levels=lv)
+        evals += 1
+        bad = None
+        try:
+            # (1) must_be_refined <=> refine changes the allocation; selection and shape of the split
+            must = a.must_be_refined(t)
+            b = a.refine(t, lv)
+            want_split = [bool(al) and not (i in fixed_idx) and max(al.values()) <= t for i, (r, al, d) in enumerate(spec)]
+            if must != any(want_split):
+                bad = f"must_be_refined({t}) = {must} but {sum(want_split)} cells qualify"
+            if (cells_of(b) != cells_of(a)) != must:
+                bad = bad or f"must_be_refined({t}) = {must} but refine changed the allocation: {cells_of(b) != cells_of(a)}"
+            exp = []
+            for i, (r, al, d) in enumerate(spec):
+                if not want_split[i]:
+                    exp.append((round(r[0], 9), round(r[1], 9), round(r[2], 9), round(r[3], 9), d, tuple(sorted((k, round(v, 12)) for k, v in al.items())), i in fixed_idx))
+                    continue
+                boxes = [(r[0] - r[2] / 2, r[1] - r[3] / 2, r[0] + r[2] / 2, r[1] + r[3] / 2)]
+                for _ in range(lv):
+                    nxt = []
+                    for (x0, y0, x1, y1) in boxes:
+                        if (x1 - x0) >= (y1 - y0):
+                            nxt += [(x0, y0, (x0 + x1) / 2, y1), ((x0 + x1) / 2, y0, x1, y1)]
+                        else:
+                            nxt += [(x0, y0, x1, (y0 + y1) / 2), (x0, (y0 + y1) / 2, x1, y1)]
+                    boxes = nxt
+                for (x0, y0, x1, y1) in boxes:
+                    exp.append((round((x0 + x1) / 2, 9), round((y0 + y1) / 2, 9), round(x1 - x0, 9), round(y1 - y0, 9), d + lv,
+                                tuple(sorted((k, round(v, 12)) for k, v in al.items())), False))
+            if sorted(exp) != cells_of(b):
+                bad = bad or "refine did not split exactly the qualifying cells into 2^levels equal cells by halving the longer side with the depth raised"
+            # (2) the refine-while-needed loop terminates (bounded here: 6 rounds, 300 cells)
+            cur, rounds = a, 0
+            while cur.must_be_refined(t) and rounds < 6 and cur.num_rectangles < 300:
+                nxt = cur.refine(t, 1)
+                if cells_of(nxt) == cells_of(cur):
+                    bad = bad or "refine-while-needed loop does not progress: must_be_refined holds but refine changes nothing"
+                    break
+                cur, rounds = nxt, rounds + 1
+            # (3) uniform depth: every refinable non-empty cell ends at the former maximum depth
+            u = a.uniform_refinement_depth()
+            dmax = max(d for _, _, d in spec)
+            for x in u.allocations:
+                if not x.rect.fixed and x.alloc and x.depth != dmax and any(True for _ in [0]):
+                    src = [s for s in spec if abs(x.rect.center.x - s[0][0]) <= s[0][2] / 2 and abs(x.rect.center.y - s[0][1]) <= s[0][3] / 2]
+                    if src and src[0][1]:
+                        bad = bad or f"uniform refinement left a cell at depth {x.depth}, former maximum {dmax}"
+            # (4) grid refinement: no refinable cell crossed by a boundary line of another cell (1 % slivers excepted)
+            g = a.griddify()
+            bxs = [(x.rect.center.x - x.rect.shape.w / 2, x.rect.center.y - x.rect.shape.h / 2, x.rect.center.x + x.rect.shape.w / 2, x.rect.center.y + x.rect.shape.h / 2,
+                    x.rect.fixed) for x in g.allocations]
+            xl = sorted({v for b_ in bxs for v in (b_[0], b_[2])})
+            yl = sorted({v for b_ in bxs for v in (b_[1], b_[3])})
+            for (x0, y0, x1, y1, fx) in bxs:
+                if fx:
+                    continue
+                for v in xl:
+                    if x0 + 0.01 * (y1 - y0) < v < x1 - 0.01 * (y1 - y0) and x0 + 0.01 * (x1 - x0) < v < x1 - 0.01 * (x1 - x0):
+                        bad = bad or f"after griddify the cell {(x0, y0, x1, y1)} is crossed by the line x = {v}"
+                for v in yl:
+                    if y0 + 0.01 * (x1 - x0) < v < y1 - 0.01 * (x1 - x0) and y0 + 0.01 * (y1 - y0) < v < y1 - 0.01 * (y1 - y0):
+                        bad = bad or f"after griddify the cell {(x0, y0, x1, y1)} is crossed by the line y = {v}"
+        except Exception as e:  # noqa
+            bad = f"{type(e).__name__}: {str(e)[:200]}"
+        if bad:
+            failures.append(dict(clause="big.refinement_decisions_are_consistent_and_exact", observed=bad, **info))
+        if not samples:
+            samples.append(dict(cells=len(spec), t=t, levels=lv, fixed=fixed_idx))
+        if len(failures) >= 4 or replay:
+            break
+    Rectangle.undefine_epsilon()
+    return dict(evaluations=evals, distinct_nontrivial=evals, exhaustive=False, failures=failures[:4],
+                rule="random allocations on irregular lattices (1-4 rows of different heights, each cut at its own positions: up to 20 cells; occupancy maps "
+                     "with 0-3 modules incl. empty maps and zero ratios; recorded depths; 0-2 fixed cells), thresholds chosen on and off the ratios, "
+                     "levels 1-3: must_be_refined against the definition and against whether refine changes the cells; the result of refine against an "
+                     "independent halving; the refine-while-needed loop progresses; uniform depth; no refinable cell crossed by a boundary line after "
+                     "griddify (1 % slivers excepted)", samples=samples, bound=f"{n_cases} allocations per chunk")
